@@ -4,6 +4,9 @@ from typing import Optional
 
 
 class Device(ABC):
+    # no identity until `element_id` is assigned (several devices never set it)
+    _element_id = None
+
     def put(self, packet):
         """Put packet in this device.
         This function will be called in previous hop.
